@@ -176,6 +176,9 @@ class C04(HistoryProfile):
                "seeded (quick) or every counted (thorough) failure position per selected bundle, "
                "rollback checked against the pre-state and retry checked against the fault-free twin")
   quick_runs = 500
+  thorough_runs = 3000          # (each thorough run enumerates up to three bundles in forked clones)
+  thorough_budget = 600
+  thorough_chunk = 2
   max_events = 22
   p_fault = 0.45
   p_bad = 0.12
